@@ -777,6 +777,18 @@ class Explorer:
     if n == 0:
       self.violations.append(Violation(aid, self._model_dict(self.solver.model()), detail, len(self.trace)))
 
+  def prove_all(self, obligations):
+    """obligations: [(cond, aid, detail)].  One query for the conjunction; individual queries only if it fails."""
+    cs = [z3.simplify(zbool(c)) if not isinstance(c, bool) else z3.BoolVal(c) for c, _, _ in obligations]
+    conj = z3.simplify(z3.And(*cs)) if cs else z3.BoolVal(True)
+    self.proved += 1
+    if z3.is_true(conj) or self._check(z3.Not(conj)) == z3.unsat:
+      return True
+    ok = True
+    for c, aid, det in obligations:
+      ok = self.prove(c, aid, det) and ok
+    return ok
+
   def fail(self, aid, detail=None):
     """unconditional violation on this path (e.g. an undocumented exception was raised)"""
     self._check()
@@ -925,6 +937,12 @@ class Concrete:
       self.violations.append(Violation(aid, self.model, detail, 0))
       return False
     raise HarnessError(f"assertion {aid} not ground in concrete mode: {c}")
+
+  def prove_all(self, obligations):
+    ok = True
+    for c, aid, det in obligations:
+      ok = self.prove(c, aid, det) and ok
+    return ok
 
   def fail(self, aid, detail=None):
     self.violations.append(Violation(aid, self.model, detail, 0))
